@@ -490,6 +490,32 @@ func ruleX3(p *Prog, r *Report) {
 					continue
 				}
 				ex, ok := canon(ifi.Cond).(*ssa.Extract)
+				if !ok {
+					// `for parent, found := m[id]; found; parent, found = m[id]`: the flag tested in the header is a phi of
+					// the found results of the same lookup written twice
+					if ph, isPhi := canon(ifi.Cond).(*ssa.Phi); isPhi {
+						var first *ssa.Extract
+						all := len(ph.Edges) > 0
+						for _, e := range ph.Edges {
+							ex2, ok2 := canon(e).(*ssa.Extract)
+							if !ok2 || ex2.Index != 1 {
+								all = false
+								break
+							}
+							lk2, ok2 := ex2.Tuple.(*ssa.Lookup)
+							if !ok2 || !lk2.CommaOk || (refMap != nil && canon(lk2.X) != refMap) {
+								all = false
+								break
+							}
+							if first == nil {
+								first = ex2
+							}
+						}
+						if all && first != nil {
+							ex, ok = first, true
+						}
+					}
+				}
 				if !ok || ex.Index != 1 {
 					continue
 				}
@@ -628,7 +654,82 @@ func ruleX3(p *Prog, r *Report) {
 				}
 			}
 			n++
-			if startBlk == nil {
+			// the comparison may live in a private helper that is handed the expected count and the number found
+			var helperCall *ssa.Call
+			if startBlk == nil && prm != nil {
+				eachInstr(h, func(in ssa.Instruction) {
+					c, ok := in.(*ssa.Call)
+					if !ok || helperCall != nil {
+						return
+					}
+					g := c.Call.StaticCallee()
+					if g == nil || g.Pkg != p.RootSSA || len(g.Blocks) == 0 || !isErrorType(c.Type()) {
+						return
+					}
+					for _, a := range c.Call.Args {
+						if canonConv(a) == ssa.Value(prm) {
+							helperCall = c
+						}
+					}
+				})
+			}
+			if helperCall != nil {
+				g := helperCall.Call.StaticCallee()
+				var gprm, glen *ssa.Parameter
+				for i, a := range helperCall.Call.Args {
+					if i >= len(g.Params) {
+						continue
+					}
+					if canonConv(a) == ssa.Value(prm) {
+						gprm = g.Params[i]
+					} else if _, isLen := isLenOf(a); isLen {
+						glen = g.Params[i]
+					}
+				}
+				bad := ""
+				if gprm == nil || glen == nil {
+					bad = "the helper is not handed both the expected count and the number of roots found"
+				}
+				for ev := -1; ev <= 2 && bad == ""; ev++ {
+					for lv := 0; lv <= 2 && bad == ""; lv++ {
+						val := func(v ssa.Value) (int, bool) {
+							v = canonConv(v)
+							switch {
+							case v == ssa.Value(gprm):
+								return ev, true
+							case v == ssa.Value(glen):
+								return lv, true
+							}
+							if k, ok := constInt(v); ok {
+								return int(k), true
+							}
+							return 0, false
+						}
+						succ, fail := orderReachFrom(g.Blocks[0], val)
+						want := ev >= 0 && lv != ev
+						if want && succ {
+							bad = fmt.Sprintf("with %d expected and %d actual roots the helper can answer nil", ev, lv)
+						}
+						if !want && fail {
+							bad = fmt.Sprintf("with %d expected and %d actual roots the helper can answer an error", ev, lv)
+						}
+					}
+				}
+				// the helper's verdict is returned
+				if bad == "" {
+					if okS, why := p.errorSurfaces(h, helperCall); !okS {
+						bad = "the helper's error is not returned: " + why
+					}
+				}
+				r.Decide(bad == "", R, "health-predicate:root-count-exact", p.InstrPos(helperCall), "the helper fails exactly when a non-negative expected root count differs from the number of roots found, and its error is returned", "the root-count predicate is not exact: "+bad)
+				n++
+				byp := successReturnAvoiding(h, nil, func(z ssa.Instruction) bool { return z == ssa.Instruction(helperCall) })
+				pos2 := p.Pos(h.Pos())
+				if byp != nil {
+					pos2 = p.InstrPos(byp)
+				}
+				r.Decide(byp == nil, R, "health-predicate:root-count-not-bypassed", pos2, "every success return passes the comparison with the expected number of roots", "a success return of the check is reachable without passing the comparison with the expected number of roots: for the storages that take this way out any expectation is accepted")
+			} else if startBlk == nil {
 				r.Bad(R, "health-predicate:root-count-exact", p.Pos(h.Pos()), "no comparison involves the expected number of roots: the root count is never checked")
 			} else {
 				bad := ""
